@@ -4,6 +4,7 @@
 //!
 //! Query lines:  `U <unix secs>`  (instant -> offset)      answer `S <off>` | `N` | `P <panic>`
 //!               `L <local secs>` (wall time -> offsets)   answer `N` | `S <off>` | `A <o1> <o2>` | `P <panic>`
+//!               `P <unix secs>`  (text forms of the instant as DateTime<Local> parse back)  answer `S <off>` | `P <message>`
 //! where `<local secs>` is the wall clock expressed as seconds since 1970-01-01T00:00 (as if UTC).
 
 use crate::mon::guard;
@@ -122,6 +123,46 @@ fn glue_local(n: &NaiveDateTime) -> Option<String> {
     }
 }
 
+/// `P <unix secs>`: the default text forms of the instant as a `DateTime<Local>` parse back (through
+/// `FromStr for DateTime<Local>`) to the same instant shown with the local zone's offset; so does the
+/// same instant printed with a foreign offset. Answer `S <off>` or a `routes-disagree` message.
+pub fn answer_parse(u: i64) -> Ans {
+    let Some(n) = ndt_of_secs(u) else { return Ans::Unrepresentable };
+    match guard(|| {
+        let dt = Local.from_utc_datetime(&n);
+        let off = dt.offset().local_minus_utc();
+        let foreign_off = if off == 19_800 { -12_600 } else { 19_800 };
+        let foreign = FixedOffset::east_opt(foreign_off).expect("offset").from_utc_datetime(&n);
+        let mut bad = Vec::new();
+        for (name, text) in [
+            ("Display", dt.to_string()),
+            ("Debug", format!("{:?}", dt)),
+            ("to_rfc3339", dt.to_rfc3339()),
+            ("Display of the same instant at another offset", foreign.to_string()),
+            ("to_rfc3339 of the same instant in UTC", Utc.from_utc_datetime(&n).to_rfc3339()),
+        ] {
+            match text.parse::<DateTime<Local>>() {
+                Ok(b) => {
+                    if b.naive_utc() != n || b.offset().local_minus_utc() != off || b.naive_local() != dt.naive_local() {
+                        bad.push(format!("{} text {:?} parses as DateTime<Local> to {:?} {:?}, expected {:?} {:?}", name, text, b.naive_utc(), b.offset(), n, dt.offset()));
+                    }
+                }
+                Err(e) => bad.push(format!("{} text {:?} does not parse as DateTime<Local>: {}", name, text, e)),
+            }
+        }
+        (off, bad)
+    }) {
+        Ok((off, bad)) => {
+            if bad.is_empty() {
+                Ans::Single(off)
+            } else {
+                Ans::Panic(format!("{}{}", GLUE, bad.join("; ")))
+            }
+        }
+        Err(p) => Ans::Panic(format!("{} at {}", p.msg, p.site())),
+    }
+}
+
 pub fn answer_local(l: i64) -> Ans {
     let Some(n) = ndt_of_secs(l) else { return Ans::Unrepresentable };
     match guard(|| {
@@ -169,6 +210,7 @@ pub fn child_main(args: &[String]) -> i32 {
         let ans = match (k, v) {
             (Some("U"), Some(v)) => answer_utc(v),
             (Some("L"), Some(v)) => answer_local(v),
+            (Some("P"), Some(v)) => answer_parse(v),
             _ => Ans::Panic("bad query".into()),
         };
         let _ = writeln!(out, "{}", ans.print());
